@@ -746,6 +746,13 @@ class Engine:
             kwargs["types"] = [POOL[0], None]
         elif cmd.get("annotated"):
             ts = [POOL[t] for t in types]
+            if cmd.get("annotated_meta"):
+                # typing.Annotated metadata (a validator, a doc string) around the whole annotation or around one member of the
+                # union says nothing about the resource's type: the factory is registered under the bare types
+                from typing import Annotated
+
+                ts = [Annotated[t, "metadata", i] if (i + fid) % 2 == 0 or len(ts) == 1 else t for i, t in enumerate(ts)]
+                self.inc("factories_typed_by_an_Annotated_return_annotation")
             annotate = ts[0] if len(ts) == 1 else eval("Union[" + ",".join(f"ts[{i}]" for i in range(len(ts))) + "]", {"Union": __import__("typing").Union, "ts": ts})
         elif len(types) == 1 and cmd.get("types_single"):
             kwargs["types"] = POOL[types[0]]
@@ -1254,7 +1261,7 @@ class Engine:
             ntypes = rng.choice([1, 1, 2, 2, 3])
             types = rng.sample(range(len(POOL)), ntypes)
             cmd = {"op": "add_factory", "cid": cid, "fid": self.fresh(), "name": name, "types": types, "types_single": rng.random() < 0.5,
-                   "annotated": rng.random() < 0.3, "desc": rng.choice([None, "fd"]), "is_async": rng.random() < 0.5,
+                   "annotated": rng.random() < 0.3, "annotated_meta": rng.random() < 0.3, "desc": rng.choice([None, "fd"]), "is_async": rng.random() < 0.5,
                    "async_kind": rng.choice(["def", "def", "lambda", "object"]), "partial": rng.random() < 0.15,
                    "via": rng.choice(["method", "shortcut"]),
                    # concrete class of what the factory builds: a class of its own, or exactly one of the pool's plain classes
